@@ -75,7 +75,7 @@ theorem deliveries_recorded (hd : env.deliver = recDeliver) (clock : Int) (rs : 
     ∃ l, (executeOnce env clock rs).2.eff = rs.eff ++ l ∧
       (executeOnce env clock rs).2.world = rs.world ++ deliveries rs.st.listeners l := by
   unfold executeOnce
-  have key := rel_executeOnce_tail (rw_respects env hd) clock { rs with st := { rs.st with time := clock, sentEvents := [] } }
+  have key := rel_executeOnce_tail (rw_respects env hd).toQ clock { rs with st := { rs.st with time := clock, sentEvents := [] } }
   simp only [M.bind, M.modify] at key ⊢
   exact key.2
 
